@@ -36,6 +36,10 @@ class Boom(Exception):
     pass
 
 
+class Halt(BaseException):
+    """An application's own control-flow exception (not an Exception)."""
+
+
 class Boom2(Exception):
     """An application exception that cannot be constructed from one string."""
 
@@ -46,8 +50,11 @@ class Boom2(Exception):
 
 def iter_exception(seed):
     """What the failing iterable raises: a plain exception, or one whose class needs several constructor arguments (re-wrapping
-    it as type(e)(message) fails), or a BaseException-derived control-flow exception is NOT used (KeyboardInterrupt kills runs)."""
+    it as type(e)(message) fails), the library's own AppendDataError, or (exc 7, 8, 9) what is not an Exception at all: KeyboardInterrupt -
+    Ctrl-C during a long acquisition -, SystemExit, a BaseException subclass of the application."""
     import json
+    if seed in (7, 8, 9):
+        return [KeyboardInterrupt(), SystemExit(3), Halt('stop requested')][seed - 7]
     try:        # the library's own exception class, as a pipeline that appends to ANOTHER Darr array would let escape
         from darr.array import AppendDataError as _ADE
     except ImportError:
@@ -85,7 +92,7 @@ def st_iter(draw):
             'n': n, 'p': draw(st.integers(0, n)), 'kind': kind, 'lens': [draw(st.sampled_from([0, 1, 2, 3])) for _ in range(n)],
             'via': draw(st.sampled_from(['iterappend-gen', 'iterappend-list', 'append', 'iterappend-gen-badclose', 'iterappend-gen-sets-mode'])),
             'indextype': draw(st.sampled_from(['int64', 'int32', 'uint16', 'int8'])),
-            'ctx': draw(st.sampled_from([None, None, 'open_arrays', 'iter_arrays']))}
+            'ctx': draw(st.sampled_from([None, None, 'open_arrays', 'iter_arrays'])), 'exc': draw(st.integers(0, 9))}
     if kind == 'overflow':
         spec['indextype'] = draw(st.sampled_from(sorted(IDXMAX)))
         spec['ovr'] = draw(st.sampled_from([2, 2, 3, 10]))
@@ -242,8 +249,10 @@ def _exec_iter(ctx, spec):
                         out.cls('iter:one-ndarray-as-iterable')
                         it = np.stack([np.asarray(x, dtype=dt) for x in seq])
                 ra.iterappend(it)
-        except Exception as e:
+        except BaseException as e:      # (the data source may raise KeyboardInterrupt / SystemExit / a BaseException subclass)
             raised = e
+            if not isinstance(e, Exception):
+                out.cls('iter:raises-non-Exception')
         finally:
             try:
                 stack.close()
@@ -370,7 +379,7 @@ def iter_grid():
                             yield {'f': 'iter', 'dt': {'t': t, 'bo': bo}, 'atom': atom, 'seed': 4, 'start': start, 'n': n, 'p': p, 'kind': kind,
                                    'lens': [2, 0, 1][:n], 'via': via, 'indextype': itype}
                             if kind == 'raise' and via != 'iterappend-gen-badclose':
-                                for exc in range(7):       # every class of exception the data source may raise
+                                for exc in range(10):       # every class of exception the data source may raise
                                     yield {'f': 'iter', 'dt': {'t': t, 'bo': bo}, 'atom': atom, 'seed': 4, 'start': start, 'n': n, 'p': p, 'kind': kind,
                                            'lens': [2, 0, 1][:n], 'via': via, 'indextype': itype, 'exc': exc}
                             if n <= 1 and kind != 'overflow':
